@@ -205,6 +205,10 @@ class Ctx:
         self.bins[pkg] = out
         rc, log, dt = sh(["go", "build", "-tags", "verif"] + extra + ["-o", out, "./" + pkg], cwd=HARNESS,
                          env=go_env(), timeout=timeout)
+        if rc != 0 and ".cache/go-build" in log and "no such file or directory" in log:
+            # an entry of the shared Go build cache was trimmed while the build read it: not a fact about /repo
+            rc, log, dt = sh(["go", "build", "-tags", "verif"] + extra + ["-o", out, "./" + pkg], cwd=HARNESS,
+                             env=go_env(), timeout=timeout)
         self.log("go build ./%s rc=%d (%.1fs)" % (pkg, rc, dt))
         if rc != 0:
             self.harness_ok = False
